@@ -279,6 +279,85 @@ def boundary_stream(ctx, res, n):
                         break
 
 
+def fixed_stream(ctx, res):
+    """declarations whose violation needs one particular combination, enumerated instead of drawn:
+    (a) FilenameField(startdir=D, exists=...) with relative names whose existence differs between D and the working directory — what is
+        held is the path resolved against D and has to meet `exists` *there*;
+    (b) validators of the application's own whose result is falsy (0, "") — what is held is what the validator returned."""
+    import cincoconfig as cc
+    import os
+    tmp, keypath = P.setup(ctx)
+    start = os.path.join(tmp, "fx-start")
+    work = os.path.join(tmp, "fx-work")
+    for d in (start, work, os.path.join(start, "adir"), os.path.join(work, "bdir")):
+        os.makedirs(d, exist_ok=True)
+    for pth in (os.path.join(start, "present.txt"), os.path.join(work, "other.txt"), os.path.join(work, "adir"), os.path.join(start, "bdir")):
+        if not os.path.exists(pth):
+            with open(pth, "w") as fh:
+                fh.write("x")
+    cwd = os.getcwd()
+    os.chdir(work)
+    try:
+        for exists in (True, False, "file", "dir"):
+            for name in ("present.txt", "other.txt", "adir", "bdir", "missing.txt"):
+                for route in ("attr", "list", "load"):
+                    s = cc.Schema()
+                    s.sub.path = cc.FilenameField(startdir=start, exists=exists)
+                    s.sub.paths = cc.ListField(cc.FilenameField(startdir=start, exists=exists), default=lambda: [])
+                    cfg = s()
+                    try:
+                        if route == "attr":
+                            cfg.sub.path = name
+                            held = cfg.sub.path
+                        elif route == "list":
+                            cfg.sub.paths.append(name)
+                            held = cfg.sub.paths[0]
+                        else:
+                            cfg.load_tree({"sub": {"path": name}})
+                            held = cfg.sub.path
+                    except Exception:  # noqa
+                        res.case(None, kind="fixed:filename:rejected")
+                        continue
+                    case = {"stream": "fixed", "what": "filename", "exists": exists, "name": name, "route": route, "held": held}
+                    res.case(stable([exists, name, route]), kind="fixed:filename:accepted")
+                    ok = os.path.isabs(held) and {True: os.path.exists, False: lambda p_: not os.path.exists(p_), "file": os.path.isfile, "dir": os.path.isdir}[exists](held)
+                    if not ok:
+                        res.violate("C01:holds-undeclared:filename", "a configuration holds a file name that does not meet the field's declared existence constraint "
+                                    "(the held path is the one resolved against the start directory)", case)
+    finally:
+        os.chdir(cwd)
+    for kind, mk, custom, values in (("int", lambda v: cc.IntField(validator=v), F.CATALOGUE["clamp0"], [-5, -1, 0, 3, "-7"]),
+                                     ("string", lambda v: cc.StringField(validator=v), F.CATALOGUE["blank"], ["#c", "# x", "keep", ""])):
+        for v in values:
+            for route in ("attr", "dotted", "ctor", "load", "list", "dict"):
+                s = cc.Schema()
+                s.a.b.x = mk(custom)
+                s.lst = cc.ListField(mk(custom), default=lambda: [])
+                s.dct = cc.DictField(cc.StringField(), mk(custom), default=lambda: {})
+                try:
+                    cfg = s(a={"b": {"x": v}}) if route == "ctor" else s()
+                    if route == "attr":
+                        cfg.a.b.x = v
+                    elif route == "dotted":
+                        cfg["a.b.x"] = v
+                    elif route == "load":
+                        cfg.load_tree({"a": {"b": {"x": v}}})
+                    elif route == "list":
+                        cfg.lst.append(v)
+                    elif route == "dict":
+                        cfg.dct["k"] = v
+                    held = cfg.lst[0] if route == "list" else cfg.dct["k"] if route == "dict" else cfg.a.b.x
+                    base = (cc.IntField() if kind == "int" else cc.StringField())
+                    want = custom(cfg, base.validate(cfg, v))
+                except Exception:  # noqa
+                    res.case(None, kind="fixed:custom:rejected")
+                    continue
+                res.case(stable([kind, F.enc_val(v), route]), kind="fixed:custom:accepted")
+                if held != want or type(held) is not type(want):
+                    res.violate("C01:custom-result-not-stored", "the value stored after an accepted assignment is not what the field's own validator returned",
+                                {"stream": "fixed", "what": "custom", "kind": kind, "value": F.enc_val(v), "route": route, "held": F.enc_val(held), "want": F.enc_val(want)})
+
+
 def run(ctx, n_quick=250, n_thorough=8000):
     res = Result()
 
@@ -288,6 +367,7 @@ def run(ctx, n_quick=250, n_thorough=8000):
     P.run_stream(ctx, res, "C01", ctx.n(n_quick, n_thorough), orc)
     guard(res, "C01", proxy_stream, ctx, res, ctx.n(150, 5000))
     guard(res, "C01", boundary_stream, ctx, res, ctx.n(120, 3000))
+    guard(res, "C01", fixed_stream, ctx, res)
     return res
 
 
